@@ -42,24 +42,19 @@ Theorem C30_each_increase_signalled :
     d_signals (rrun D evs (dinit t0)) = totals (d_count (rrun D evs (dinit t0))).
 Proof. exact each_increase_signalled. Qed.
 
-(* reader: the count is the number of OVERDUE ITERATIONS (nothing re-arms) ... *)
-Theorem C30_reader_count_eq_overdue_wakes :
-  forall D t0 ws,
-    d_count (rrun D (map Wake ws) (dinit t0)) = Z.of_nat (length (filter (fun w => D <? w - t0) ws)).
-Proof. exact reader_count_eq_overdue_wakes. Qed.
+(* reader, same form: with at least one worker iteration per period the count is exactly the
+   number of elapsed periods (the instance is re-armed by count periods) ... *)
+Theorem C30_reader_count_eq_elapsed_periods :
+  forall D t0 ws, 0 < D -> dense D t0 ws ->
+    let s := rrun D (map Wake ws) (dinit t0) in
+    d_count s = elapsed_periods D (last ws t0 - t0) /\ d_t s = t0 + d_count s * D.
+Proof. exact reader_count_eq_elapsed_periods. Qed.
 
-(* ... so it equals the number of elapsed periods only outside the recorded class
-   C30-reader-no-rearm (the overdue iterations hit the periods 1, 2, 3, ... once each) *)
-Theorem C30_reader_count_eq_elapsed_periods_unless_known :
-  forall D t0 ws, 0 < D -> nondecr t0 ws -> reader_known D t0 ws = false ->
-    d_count (rrun D (map Wake ws) (dinit t0)) = elapsed_periods D (last ws t0 - t0).
-Proof. exact reader_count_eq_elapsed_periods_unless_known. Qed.
-
-(* and the unrestricted reader statement is false *)
-Theorem C30_reader_count_eq_elapsed_periods_refuted :
-  exists D t0 ws, 0 < D /\ nondecr t0 ws /\ reader_known D t0 ws = true /\
-    d_count (rrun D (map Wake ws) (dinit t0)) = 3 /\ elapsed_periods D (last ws t0 - t0) = 2.
-Proof. exact reader_count_eq_elapsed_periods_refuted. Qed.
+(* ... and for any iteration times it never over-counts *)
+Theorem C30_reader_count_le_elapsed_periods :
+  forall D t0 ws, 0 < D -> nondecr t0 ws ->
+    d_count (rrun D (map Wake ws) (dinit t0)) <= elapsed_periods D (last ws t0 - t0).
+Proof. exact reader_count_le_elapsed_periods. Qed.
 
 (* the per-instance rules in ns are the ones of the (sec, nanosec) worker model that is tied
    to the code (Sched/WorkerModel.v), away from the i32 clamp of the seconds *)
@@ -69,18 +64,20 @@ Theorem C30_check_inst_refines_wstep :
     let s' := wstep (nanos dl) (mkD (nanos t) 0 []) (Wake (nanos now)) in
     option_map nanos (si_last i') = Some (d_t s') /\ n = d_count s'.
 Proof. exact check_inst_refines_wstep. Qed.
-Theorem C30_reader_overdue_refines_rstep :
-  forall now dl last, small now -> small last -> small dl ->
-    dur_ltb dl (time_sub now last) = (nanos dl <? nanos now - nanos last).
-Proof. exact reader_overdue_refines_rstep. Qed.
+Theorem C30_check_rinst_refines_rstep :
+  forall now dl last key, small now -> small last -> small dl ->
+    let '(i', n) := check_rinst now dl (key, last) in
+    let s' := rstep (nanos dl) (mkD (nanos last) 0 []) (Wake (nanos now)) in
+    nanos (snd i') = d_t s' /\ n = d_count s'.
+Proof. exact check_rinst_refines_rstep. Qed.
 
-(* non-vacuity: a dense wake sequence over 3.3 periods gives 3 writer misses; a 50 ms reader
-   deadline with one iteration per 50 ms is outside the class *)
+(* non-vacuity: a dense wake sequence over 3.3 periods gives 3 misses on both sides (the
+   former witness of C30-reader-no-rearm: iterations at 150, 200, 250 now give 2, not 3) *)
 Example C30_nonvacuous :
   dense 100 0 [50; 100; 101; 151; 200; 201; 251; 300; 301; 330] /\
   d_count (wrun 100 (map Wake [50; 100; 101; 151; 200; 201; 251; 300; 301; 330]) (dinit 0)) = 3 /\
-  reader_known 50 0 [50; 51; 101; 151] = false /\
-  d_count (rrun 50 (map Wake [50; 51; 101; 151]) (dinit 0)) = 3 /\
+  d_count (rrun 100 (map Wake [50; 100; 101; 151; 200; 201; 251; 300; 301; 330]) (dinit 0)) = 3 /\
+  d_count (rrun 100 (map Wake [150; 200; 250]) (dinit 0)) = 2 /\
   on_time 100 0 [Wake 50; Sample 90; Wake 100; Wake 150; Sample 190; Wake 200].
 Proof. cbn [dense on_time]. repeat split; try lia; vm_compute; reflexivity. Qed.
 
@@ -89,8 +86,7 @@ Print Assumptions C30_writer_count_le_elapsed_periods.
 Print Assumptions C30_writer_no_miss_while_on_time.
 Print Assumptions C30_reader_no_miss_while_on_time.
 Print Assumptions C30_each_increase_signalled.
-Print Assumptions C30_reader_count_eq_overdue_wakes.
-Print Assumptions C30_reader_count_eq_elapsed_periods_unless_known.
-Print Assumptions C30_reader_count_eq_elapsed_periods_refuted.
+Print Assumptions C30_reader_count_eq_elapsed_periods.
+Print Assumptions C30_reader_count_le_elapsed_periods.
 Print Assumptions C30_check_inst_refines_wstep.
-Print Assumptions C30_reader_overdue_refines_rstep.
+Print Assumptions C30_check_rinst_refines_rstep.
